@@ -204,6 +204,13 @@ def check_case(ctx, case):
                                                 "compresslevel")})
             downscaler = downscaling.get_downscaler(case["method"],
                                                     pio2.info, opts)
+            # a downscaler object may already have served another dataset
+            # (other data type, other shape)
+            with np.errstate(all="ignore"):
+                downscaler.downscale(np.arange(24, dtype="uint16" if dtype !=
+                                               "uint16" else "float32"
+                                               ).reshape(1, 2, 3, 4),
+                                     (1, 1, 1))
             err = None
             try:
                 with poisoned(byte), np.errstate(all="ignore"):
